@@ -61,6 +61,47 @@ func VGC(S, K int) {
 		if isActive && holdersPre > 0 {
 			zzv.Assert("C01.a.gc.coverage", holdersPost > 0)
 		}
+		// progress (C06): a completed hand-over is collected and qualified duplicates shrink, wherever
+		// in the shard list the copies sit
+		if isActive {
+			for i := 0; i < S; i++ {
+				pi, was := pre[i][h]
+				if !was || pi.ScrapeTimes < vHandover {
+					continue
+				}
+				for j := 0; j < S; j++ {
+					pj, other := pre[j][h]
+					if j == i || !other || pj.ScrapeTimes < vHandover {
+						continue
+					}
+					_, still := infos[i].scraping[h]
+					if pi.TargetState == target.StateInTransfer && pj.TargetState == target.StateNormal {
+						zzv.Cover("gc.progress.handover")
+						zzv.Assert("C06.gc.completed.handover.collected", !still)
+					}
+				}
+			}
+			qualified := 0
+			sameState := true
+			var st0 string
+			for i := 0; i < S; i++ {
+				if pi, was := pre[i][h]; was {
+					if pi.ScrapeTimes < vHandover {
+						sameState = false
+					}
+					if qualified == 0 {
+						st0 = pi.TargetState
+					} else if pi.TargetState != st0 {
+						sameState = false
+					}
+					qualified++
+				}
+			}
+			if qualified >= 2 && sameState {
+				zzv.Cover("gc.progress.duplicates")
+				zzv.Assert("C06.gc.duplicates.reduced", holdersPost < holdersPre)
+			}
+		}
 	}
 	zzv.Cover("end")
 }
